@@ -84,7 +84,7 @@ func (f *Family) cn(pos int) string {
 
 // URL returns the URL string of a slot. typ is "o" (OCSP) or "d" (CRL).
 func (f *Family) URL(pos int, typ string, slot int, kind string) string {
-	host := fmt.Sprintf("%s%d.c%d.%s.test", typ, slot, pos, strings.ToLower(f.Tag))
+	host := f.Host(pos, typ, slot)
 	path := ""
 	if typ == "d" {
 		path = "/base.crl"
@@ -112,7 +112,10 @@ func (f *Family) URL(pos int, typ string, slot int, kind string) string {
 
 // Host returns the route key (host) of an http slot.
 func (f *Family) Host(pos int, typ string, slot int) string {
-	return fmt.Sprintf("%s%d.c%d.%s.test", typ, slot, pos, strings.ToLower(f.Tag))
+	// the letter after the type makes the lexicographic order of a
+	// certificate's URLs the REVERSE of their order in the certificate, so
+	// that code which sorts them is observable
+	return fmt.Sprintf("%s%c%d.c%d.%s.test", typ, "zmca"[slot%4], slot, pos, strings.ToLower(f.Tag))
 }
 
 // DeltaURL returns the k-th delta location of a CRL slot.
